@@ -7,7 +7,7 @@ from common import hx
 from props.c02 import boundary_values
 
 ID = "C06"
-LEAN_IMPORTS = ["PyTrie.Props.C06", "PyTrie.Props.C05Batch", "PyTrie.Props.RawLevel", "PyTrie.Props.NonVacuity", "PyTrie.Props.NonVacuity4"]
+LEAN_IMPORTS = ["PyTrie.Props.C06", "PyTrie.Props.C05Batch", "PyTrie.Props.RawLevel", "PyTrie.Props.NonVacuity", "PyTrie.Props.NonVacuity4", "PyTrie.Props.FreeExec"]
 THEOREMS = [
     "PyTrie.Props.C06.setE_tree",
     "PyTrie.Props.C06.deleteE_tree",
@@ -38,6 +38,9 @@ THEOREMS = [
     "PyTrie.Props.NonVacuity4.pruned_get_k2",
     "PyTrie.Props.NonVacuity4.prunedBase_length",
     "PyTrie.Props.NonVacuity4.pruned_gone",
+    "PyTrie.Props.Free.op_is_executor_op",
+    "PyTrie.Props.Free.run_pruning_exact",
+    "PyTrie.Props.Free.run_get",
 ]
 RULE = ("pruning tries started on an empty database and modified only through their own API: histories of "
         "set/delete/set-to-empty/no-op updates and squash_changes blocks (committed and aborted) over prefix-sharing "
